@@ -18,6 +18,7 @@ func devMain(args []string) int {
 	n := fs.Int("n", 100, "number of runs")
 	verbose := fs.Bool("v", false, "verbose")
 	dump := fs.Bool("dump", false, "dump trace of violating runs")
+	target := fs.String("target", "", "target property (others are recorded as foreign)")
 	fs.Parse(args)
 	p, ok := engine.ProfileByName(*prof)
 	if !ok {
@@ -32,7 +33,7 @@ func devMain(args []string) int {
 	evals := map[string]int{}
 	actions, ticks, conv, exempt := 0, 0, 0, 0
 	for i := *from; i < *from+*n; i++ {
-		r := engine.RunOne(p, *seed, i, engine.Options{})
+		r := engine.RunOne(p, *seed, i, engine.Options{Target: *target})
 		actions += r.Stats.Actions
 		ticks += r.Stats.Ticks
 		for k, v := range r.Stats.Probes {
@@ -51,6 +52,9 @@ func devMain(args []string) int {
 			if r.Heal.Exempt != "" {
 				exempt++
 			}
+		}
+		if r.Foreign != nil {
+			viol["foreign "+r.Foreign.Property+"/"+r.Foreign.Sig]++
 		}
 		if r.Violation != nil {
 			key := r.Violation.Property + "/" + r.Violation.Sig
